@@ -83,6 +83,11 @@ def big_specs(ctx, n):
         T = rng.choice([3, 4, 5])
         beta = rng.choice([F(1, 2), F(3, 4), F(7, 8), F(15, 16)])      # dyadic: the geometric sum stays small for TLC
         kind = i % 4
+        if (i // 4) % 2 == 1 and kind in (0, 2):
+            # long horizons (more than 10 periods); beta in {1/2, 1} keeps beta^k within TLC's 32-bit integers
+            T = rng.choice([11, 12, 13])
+            nw, nc = 65, 33
+            beta = rng.choice([F(1, 2), F(1)])
         if kind == 0:
             m = big_model(rng, nw, nc, T, False, beta)
             mm, a, b = laws.affine(rng, m)
